@@ -2,6 +2,7 @@
    attributed to the repository that contains them, shared tables are never
    modified.  Only statements; every proof is [exact <lemma>]. *)
 From AL Require Import Base.Str Base.AList Multi.Project Multi.Cache Multi.Tables Multi.Race.
+From AL Require Gen.GenGlobals Multi.Globals.
 
 (* a file is attributed to the nearest enclosing repository root, for every
    history of earlier look-ups (sibling names sharing a prefix and nested
@@ -78,3 +79,16 @@ Print Assumptions C10_tables_old_refuted_matrix.
 Theorem C10_race_free_if_disciplined : forall guard tr, disciplined guard tr -> ~ has_race tr.
 Proof. exact race_free_if_disciplined. Qed.
 Print Assumptions C10_race_free_if_disciplined.
+
+(* the shared state itself: every package-level variable of the source (re-listed on every run,
+   Gen/GenGlobals.v) is a known read-only table, compiled pattern, colour object or build string,
+   and no statement of the package assigns to one, increments one, or sorts / deletes from /
+   clears / copies into one *)
+Theorem C10_package_vars_are_known : forall v, In v GenGlobals.package_vars ->
+  exists c, In (fst (fst v), snd (fst v), c) Globals.allowed.
+Proof. exact Globals.package_vars_known. Qed.
+Print Assumptions C10_package_vars_are_known.
+
+Theorem C10_no_statement_writes_a_package_var : GenGlobals.package_var_writes = [].
+Proof. exact Globals.no_package_var_write. Qed.
+Print Assumptions C10_no_statement_writes_a_package_var.
